@@ -97,6 +97,9 @@ impl MonotonicTimestampGenerator {
     // This is guaranteed to return a monotonic timestamp. If clock skew is detected
     // then this method will increment the last timestamp.
     fn compute_next(&self, last: i64) -> i64 {
+        // Verification hook: a scriptable clock shadows `std::time::SystemTime` here.
+        #[cfg(scylla_verif)]
+        use crate::verif::clock::SystemTime;
         let current = SystemTime::now().duration_since(UNIX_EPOCH);
         if let Ok(cur_time) = current {
             // We have generated a valid timestamp
